@@ -37,8 +37,8 @@ PROPS['C13']['harnesses'] = SEQ_H + [A(src='harness/c13_ilist.cpp', san='asan')]
 
 HM_H = [A(src='harness/c14_hashmap.cpp', san='asan')]
 PROPS['C14'] = A(level='model_checking', harnesses=HM_H, budget=A(quick=150, thorough=1500),
-    bounds=A(quick='4 hash functions (identity, constant, low bit, x10) x 12 start states (pre-filled to 0,8,9,10,11,19,20,21,39,40 entries; filled to 12/21 and emptied) x all histories of depth 4 (5 from empty) over insert(const&/&&)/operator[]/operator[]=/remove on a 5-key alphabet of present and absent keys; get/find/const find/size/empty/iteration for every key of the universe after every transition',
-             thorough='5 hash functions, depth 5 (6 from empty)'),
+    bounds=A(quick='6 hash functions returning 64-bit values (identity, constant, low bit, x10, a 64-bit mix with significant high bits, a negative/sign-extended one) x 12 start states (pre-filled to 0,8,9,10,11,19,20,21,39,40 entries; filled to 12/21 and emptied) x all histories of depth 4 (5 from empty) over insert(const&/&&)/operator[]/operator[]=/remove on a 5-key alphabet of present and absent keys; get/find/const find/size/empty/iteration for every key of the universe after every transition',
+             thorough='7 hash functions, depth 5 (6 from empty)'),
     assumptions=TRUST)
 
 HOLD_H = [A(src='harness/c17_holders.cpp', san='asan')]
